@@ -236,11 +236,16 @@ def check(prop_id, tier, seed, workers=None):
 
     if os.environ.get("XMC_SUMMARY"):
         cnt = Counter()
+        first = {}
         for c, r in zip(cases, results):
             for v in r["violations"]:
-                cnt[(v["check"], v["model"], json.dumps(v["features"], sort_keys=True))] += 1
+                k = (v["check"], v["model"], json.dumps(v["features"], sort_keys=True))
+                cnt[k] += 1
+                first.setdefault(k, (c, v["msg"]))
         for k, n in sorted(cnt.items(), key=lambda kv: (-kv[1], kv[0])):
             print("SUMMARY %5d  %s %s %s" % ((n,) + k))
+            if os.environ.get("XMC_SUMMARY") == "2":
+                print("        e.g. %s\n        %s" % (json.dumps(first[k][0], sort_keys=True), first[k][1].replace("\n", " | ")[:400]))
     outcomes = Counter(r["outcome"] for r in results)
     nontriv_keys = set()
     for c, r in zip(cases, results):
